@@ -1,6 +1,7 @@
 #![allow(irrefutable_let_patterns, dead_code)]
 mod conditions;
 mod ints;
+mod relations;
 mod sx;
 mod util;
 
@@ -19,6 +20,7 @@ fn main() {
     match argv[1].as_str() {
         "ints" => ints::record(&args),
         "conditions" => conditions::record(&args),
+        "relations" => relations::record(&args),
         d => {
             eprintln!("unknown domain {d}");
             std::process::exit(2);
